@@ -24,7 +24,11 @@ InR(s) == s \in {"r", "both"}
 InP(s) == s \in {"p", "both"}
 InT(s) == s \in {"r", "p", "both", "ts"}
 
-StarEl == (1 :> 6) @@ (2 :> 1) @@ (3 :> 9) @@ (4 :> 17) @@ (5 :> 35)
+(* "stard": the same with REPEATED ligand elements, so that reactant and product can be isomorphic graphs over the same
+   identifiers with different bonds (degenerate rearrangements, identity SN2: Cl4-C + Cl5 -> Cl4 + C-Cl5);
+   "h3": three hydrogens, every bond among them variable (H1-H2 + H3 -> H1 + H2-H3). *)
+StarEl == IF Fam = "stard" THEN (1 :> 6) @@ (2 :> 1) @@ (3 :> 1) @@ (4 :> 17) @@ (5 :> 17)
+          ELSE (1 :> 6) @@ (2 :> 1) @@ (3 :> 9) @@ (4 :> 17) @@ (5 :> 35)
 StarFixed == { {1,2}, {1,3} }
 StarVar == << {1,4}, {1,5}, {2,3} >>
 CentreChoices == { NoD, D("Tetrahedral", <<1,2,3,4,5>>, 1), D("Tetrahedral", <<1,2,3,4,5>>, -1),
@@ -41,6 +45,13 @@ StarCase(st, dr, dt, dp, withTS) ==
        Bt == StarFixed \cup { StarVar[k] : k \in { x \in 1..3 : InT(st[x]) } }
    IN [r |-> MkS(StarEl, Br, AstOf(dr), Emp), p |-> MkS(StarEl, Bp, AstOf(dp), Emp),
        ts |-> IF withTS THEN MkS(StarEl, Bt, AstOf(dt), Emp) ELSE NoGraph]
+
+H3El == (1 :> 1) @@ (2 :> 1) @@ (3 :> 1)
+H3Var == << {1,2}, {2,3}, {1,3} >>
+H3Case(st, withTS) ==
+   LET Bs(In(_)) == { H3Var[k] : k \in { x \in 1..3 : In(st[x]) } } IN
+   [r |-> MkS(H3El, Bs(InR), Emp, Emp), p |-> MkS(H3El, Bs(InP), Emp, Emp),
+    ts |-> IF withTS THEN MkS(H3El, Bs(InT), Emp, Emp) ELSE NoGraph]
 
 EthEl == (1 :> 1) @@ (2 :> 9) @@ (3 :> 6) @@ (4 :> 6) @@ (5 :> 1) @@ (6 :> 17)
 EthFixed == { {1,3}, {2,3}, {4,5}, {4,6} }
@@ -70,7 +81,9 @@ Pick == SampleMod <= 1 \/ (StCode * 31 + dr * 7 + dp * 13 + dt * 3 + (IF wts THE
 
 Init ==
    /\ n = 0 /\ wts \in BOOLEAN
-   /\ IF Fam = "star"
+   /\ IF Fam = "h3"
+        THEN /\ st \in [1..3 -> BondStates] /\ dr = 1 /\ dp = 1 /\ dt = 1
+        ELSE IF Fam \in {"star", "stard"}
         THEN /\ st \in [1..3 -> BondStates] /\ dr \in 1..Len(CentreSeq) /\ dp \in 1..Len(CentreSeq)
              /\ dt \in (IF wts THEN 1..Len(TSSeq) ELSE {NoDIdxT})
         ELSE /\ st \in [1..1 -> BondStates] /\ dr \in 1..Len(BondSeq) /\ dp \in 1..Len(BondSeq) /\ dt = 1
@@ -79,7 +92,8 @@ Init ==
 Next == UNCHANGED vars
 Spec == Init /\ [][Next]_vars
 
-Case == IF Fam = "star" THEN StarCase(st, CentreSeq[dr], TSSeq[dt], CentreSeq[dp], wts)
+Case == IF Fam = "h3" THEN H3Case(st, wts)
+        ELSE IF Fam \in {"star", "stard"} THEN StarCase(st, CentreSeq[dr], TSSeq[dt], CentreSeq[dp], wts)
         ELSE EthCase(st[1], BondSeq[dr], BondSeq[dp], wts)
 
 Emit == PrintT("R|" \o JObj(<< JKV("r", GJ(Case.r)), JKV("p", GJ(Case.p)), JKV("ts", GJ(Case.ts)) >>))
